@@ -722,11 +722,19 @@ func runC11(c *Ctx, _ []string) {
 		cfg.Headerless = false
 		cfg.Block = []uint{1024, 2048, 4096}[r.Intn(3)]
 		nb := r.Range(1, 12)
+		many := i == 0 // more blocks than the header's block-count hint can express (63 = "63 or more"), size in the header
+		if many {
+			nb = 80
+			cfg.Block = 1024
+			if cfg.Entropy == "TPAQ" || cfg.Entropy == "TPAQX" || cfg.Entropy == "CM" {
+				cfg.Entropy = "HUFFMAN"
+			}
+		}
 		size := nb*int(cfg.Block) - r.Intn(int(cfg.Block))
 		shape := dataShapes[r.Intn(len(dataShapes))]
 		dseed := r.U64()
 		data := mkData(shape, size, dseed)
-		if r.Bool() {
+		if r.Bool() || many {
 			cfg.Hint = int64(size)
 		}
 		stream, stage, err := compress(cfg, data, nil)
@@ -735,8 +743,12 @@ func runC11(c *Ctx, _ []string) {
 		}
 		desc := map[string]any{"cfg": cfg.String(), "data": describe(shape, size, dseed), "blocks": nb}
 		B := int(cfg.Block)
+		edge := map[int]bool{1: true, 2: true, 62: true, 63: true, 64: true, 65: true, 66: true, 79: true, 80: true, 81: true, 82: true}
 		for from := 1; from <= nb+2; from++ {
 			for to := from; to <= nb+2; to++ {
+				if many && !(edge[from] && edge[to]) {
+					continue
+				}
 				for _, jobs := range []uint{1, 2, 3, 4, 5, 6, 7, 8} {
 					if c.Scale == 1 && (from*7+to*3+int(jobs)+i)%3 != 0 {
 						continue
